@@ -15,7 +15,7 @@ import c10_peg  # noqa: E402  (grammar layer: translate/pest2coq.py, coq/Peg.v, 
 
 PID = "C10"
 MANIFEST = {
-    "text": "34 Coq theorems. Token level (transcription of pest's Pratt parser and pairs_to_expr_inner over token "
+    "text": "36 Coq theorems. Token level (transcription of pest's Pratt parser and pairs_to_expr_inner over token "
             "streams, table regenerated from precedence.rs / expressions.rs / pest on every run): the Pratt table built "
             "from the generated rows refines the hand-written specification table (all 34 operator rules); every tree "
             "the parser can produce is recovered from EVERY rendering that carries at least the parentheses the "
@@ -37,7 +37,8 @@ MANIFEST = {
             "ordered, nested and inside the text (the parser's share of C01), position independence (moving the offset "
             "moves all spans and nothing else); the rules identifier / bool / null / identifier_rest / reserved_word of "
             "the regenerated grammar are exactly the specification functions the name theorems are about, and its number "
-            "rule accepts exactly the language of gen/NumGrammar.v (C16's token); for every "
+            "rule accepts exactly the language of gen/NumGrammar.v (C16's token), its string rule (PUSH / PEEK / POP on pest's "
+            "stack) ends at the first occurrence of the opening quote, has no escape sequences and gives the stack back; for every "
             "grammar whose WHITESPACE is a choice of single characters, skip absorbs additional blanks and additional "
             "blanks between the two tokens of a non-atomic sequence change nothing but positions (unconditional after a "
             "literal token; instance for the "
